@@ -374,6 +374,17 @@ impl Cov4 {
 }
 
 fn check_pair(rep: &mut Report, class: &str, x: &[f64], y: &[f64]) {
+    check_pair_in(rep, class, x, y, None)
+}
+
+/// `tag`: a workload family that wants its own signatures (`<regime>@<tag>`), e.g. the block-edge lengths
+fn check_pair_in(rep: &mut Report, class: &str, x: &[f64], y: &[f64], tag: Option<&str>) {
+    let rg = |base: &str| -> String {
+        match tag {
+            Some(t) => format!("{}@{}", base, t),
+            None => base.to_string(),
+        }
+    };
     let n = x.len();
     let nf = n as f64;
     let exact = is_small_int(x) && is_small_int(y);
@@ -403,13 +414,13 @@ fn check_pair(rep: &mut Report, class: &str, x: &[f64], y: &[f64]) {
         if healthy {
             rep.note_max(&format!("info.worst_ratio_vs_DESIGN_formula.cov.{}", a), err / (design_bound(&mx, &my) * if a == "twopass_pop" { 1.0 } else { nf / (nf - 1.0) }));
         }
-        rep.check(&format!("C08.cov.{}", a), oracle, err <= tol, || ctx(jnum(v), json!(want), json!({"algorithm": a, "abs_err": jnum(err), "tol": tol, "all_four": c.js(), "mean_x": mx.mean.f(), "mean_y": my.mean.f(), "sd_x": mx.sd_pop(), "sd_y": my.sd_pop()})));
+        rep.check(&format!("C08.cov.{}", a), &rg(oracle), err <= tol, || ctx(jnum(v), json!(want), json!({"algorithm": a, "abs_err": jnum(err), "tol": tol, "all_four": c.js(), "mean_x": mx.mean.f(), "mean_y": my.mean.f(), "sd_x": mx.sd_pop(), "sd_y": my.sd_pop()})));
     }
     // the algorithms agree with one another (anchor: two-pass sample covariance), on the library's own outputs
     for (a, v) in [("twopass_pop", c.pop * nf / (nf - 1.0)), ("onepass", c.onepass), ("online", c.online)] {
         let err = (v - c.smp).abs();
         let tol = 2.0 * b_smp + 4.0 * U * c.smp.abs();
-        rep.check("C08.cov.agree", &format!("{}~twopass_sample", a), err <= tol, || ctx(c.js(), json!("equal after the n/(n-1) factor"), json!({"pair": a, "abs_diff": jnum(err), "tol": tol})));
+        rep.check("C08.cov.agree", &rg(&format!("{}~twopass_sample", a)), err <= tol, || ctx(c.js(), json!("equal after the n/(n-1) factor"), json!({"pair": a, "abs_diff": jnum(err), "tol": tol})));
     }
     // symmetry and cov(x,x) = var(x)
     match (cov4(y, x), cov4(x, x), guard(|| (st::var(x), st::sample_var(x)))) {
@@ -418,13 +429,13 @@ fn check_pair(rep: &mut Report, class: &str, x: &[f64], y: &[f64]) {
             for a in ALGOS {
                 let err = (c.get(a) - cs.get(a)).abs();
                 let tol = 2.0 * if a == "twopass_pop" { b_pop } else { b_smp };
-                rep.check("C08.cov.symmetry", a, err <= tol, || ctx(json!({"cov(x,y)": jnum(c.get(a)), "cov(y,x)": jnum(cs.get(a))}), json!("equal"), json!({"algorithm": a, "tol": tol})));
+                rep.check("C08.cov.symmetry", &rg(a), err <= tol, || ctx(json!({"cov(x,y)": jnum(c.get(a)), "cov(y,x)": jnum(cs.get(a))}), json!("equal"), json!({"algorithm": a, "tol": tol})));
             }
             let bx = bound(&mx, &mx);
             let e1 = (cxx.pop - vx).abs();
-            rep.check("C08.cov.self_is_var", "twopass_pop", e1 <= 2.0 * bx, || ctx(json!({"covariance(x,x)": jnum(cxx.pop), "var(x)": jnum(vx)}), json!("equal"), json!({"tol": 2.0 * bx})));
+            rep.check("C08.cov.self_is_var", &rg("twopass_pop"), e1 <= 2.0 * bx, || ctx(json!({"covariance(x,x)": jnum(cxx.pop), "var(x)": jnum(vx)}), json!("equal"), json!({"tol": 2.0 * bx})));
             let e2 = (cxx.smp - svx).abs();
-            rep.check("C08.cov.self_is_var", "twopass_sample", e2 <= 2.0 * bx * nf / (nf - 1.0), || ctx(json!({"sample_covariance(x,x)": jnum(cxx.smp), "sample_var(x)": jnum(svx)}), json!("equal"), json!({"tol": 2.0 * bx * nf / (nf - 1.0)})));
+            rep.check("C08.cov.self_is_var", &rg("twopass_sample"), e2 <= 2.0 * bx * nf / (nf - 1.0), || ctx(json!({"sample_covariance(x,x)": jnum(cxx.smp), "sample_var(x)": jnum(svx)}), json!("equal"), json!({"tol": 2.0 * bx * nf / (nf - 1.0)})));
         }
         (a, b, d) => {
             let msg = a.err().or(b.err()).or(d.err()).unwrap_or_default();
@@ -976,8 +987,73 @@ fn hist_structured(rng: &mut Rng, rep: &mut Report, kind: usize) {
     }
 }
 
+
+// ---------------------------------------------------------------------------------------------
+// block / batch boundaries of long inputs: lengths at and next to the multiples of 2^6..2^13 (the
+// sizes at which an unrolled, blocked, batched or pairwise implementation changes its code path),
+// next to the multiples of 500 (decimal batch sizes) and at both ends of the length range
+
+/// upper end of the property's length range
+const MAX_LEN: usize = 10_000;
+
+/// (length, family label, position): every length m−1, m, m+1 with m a multiple of 64 (labelled by the
+/// largest power of two ≤ 2^13 dividing m) or of 500, inside 2..=MAX_LEN, and the ends of the range
+fn block_edge_lengths() -> Vec<(usize, String, &'static str)> {
+    let mut v: Vec<(usize, String, &'static str)> = Vec::new();
+    let push = |v: &mut Vec<(usize, String, &'static str)>, n: usize, lab: String, off: &'static str| {
+        if (2..=MAX_LEN).contains(&n) && !v.iter().any(|(m, _, _)| *m == n) {
+            v.push((n, lab, off));
+        }
+    };
+    for n in [2usize, 3, MAX_LEN - 2, MAX_LEN - 1, MAX_LEN] {
+        push(&mut v, n, "range-end".to_string(), "");
+    }
+    let mut m = 64;
+    while m <= MAX_LEN + 1 {
+        let j = (m.trailing_zeros() as usize).min(13);
+        for (n, off) in [(m - 1, "m-1"), (m, "m"), (m + 1, "m+1")] {
+            push(&mut v, n, format!("k*2^{}", j), off);
+        }
+        m += 64;
+    }
+    let mut m = 500;
+    while m <= MAX_LEN + 1 {
+        for (n, off) in [(m - 1, "m-1"), (m, "m"), (m + 1, "m+1")] {
+            push(&mut v, n, "k*500".to_string(), off);
+        }
+        m += 500;
+    }
+    v
+}
+
+/// the labels `block_edge_lengths` produces (for `require`)
+fn block_edge_labels() -> Vec<String> {
+    let mut l: Vec<String> = block_edge_lengths().into_iter().map(|(_, s, _)| s).collect();
+    l.sort();
+    l.dedup();
+    l
+}
+
+/// one data set and one pair of the given length through every statistic, every API and every covariance
+/// algorithm (reference: double-double / exact rational, bounds as everywhere else), plus the agreement
+/// of the alternative algorithms
+fn block_edge(rng: &mut Rng, rep: &mut Report, n: usize, label: &str, off: &str) {
+    let tag = format!("blockedge:{}", label);
+    rep.seen(&tag, 1);
+    if !off.is_empty() {
+        rep.seen(&format!("blockedge:len={}", off), 1);
+        rep.seen(&format!("{}:len={}", tag, off), 1);
+    }
+    let class = *rng.choose(&["small-int", "gaussian", "offset", "sorted", "reversed", "ties"]);
+    let x = gen_data(rng, class, n);
+    check_single(rep, &tag, &x, rng);
+    let pclass = *rng.choose(&["small-int", "gaussian", "offset", "sorted", "ties", "identical", "constant"]);
+    let (x, y) = gen_pair(rng, pclass, n);
+    check_pair_in(rep, &tag, &x, &y, Some(&tag));
+}
+
 pub fn run(cfg: &Cfg, rep: &mut Report) {
-    rep.rule = "data sets of length 1..1e4 (>= 2 for sample statistics and pairs) from 8 classes (small integers, gaussian, offset with mean/sd 1e2..1e8, constant, sorted, reversed, ties, signed zeros), each pushed through the free functions, the Vector methods and the Matrix methods (random r x c shape); pairs from 8 classes (incl. identical and constant) through the four covariance algorithms; grid data with exact shifts up to 8e9 and exact 2^k scalings for the metamorphic relations; uniform (dyadic and linspace) and non-uniform bin edges (2..501 edges); one-point data sets (values 5e-324..1e300, signed zeros) through every population statistic and API with the definition as oracle, length 2 forced for the sample statistics; grid data times 2^+-(300..480) (unit spread, spreads 2^-20..2^-36, offset with spread/mean 2^-28..2^-38) for homogeneity of every statistic. one evaluation = one data set through one API (9-24 library calls, see notes.library_calls). non-trivial = length >= 2 and not constant (hist: >= 2 bins); distinct by bits of the data; near-tie data sets (values 1..4 ulp inside the maximum / minimum placed before and after it) through every API; structured bin edges (geometric progressions with ratios 2, 10, 3, 1.5, ..., their negatives, arithmetic, geometrically shrinking widths, mixed, integer sequences)".into();
+    rep.rule = "data sets of length 1..1e4 (>= 2 for sample statistics and pairs) from 8 classes (small integers, gaussian, offset with mean/sd 1e2..1e8, constant, sorted, reversed, ties, signed zeros), each pushed through the free functions, the Vector methods and the Matrix methods (random r x c shape); pairs from 8 classes (incl. identical and constant) through the four covariance algorithms; grid data with exact shifts up to 8e9 and exact 2^k scalings for the metamorphic relations; uniform (dyadic and linspace) and non-uniform bin edges (2..501 edges); one-point data sets (values 5e-324..1e300, signed zeros) through every population statistic and API with the definition as oracle, length 2 forced for the sample statistics; grid data times 2^+-(300..480) (unit spread, spreads 2^-20..2^-36, offset with spread/mean 2^-28..2^-38) for homogeneity of every statistic. one evaluation = one data set through one API (9-24 library calls, see notes.library_calls). non-trivial = length >= 2 and not constant (hist: >= 2 bins); distinct by bits of the data; near-tie data sets (values 1..4 ulp inside the maximum / minimum placed before and after it) through every API; structured bin edges (geometric progressions with ratios 2, 10, 3, 1.5, ..., their negatives, arithmetic, geometrically shrinking widths, mixed, integer sequences); block-edge lengths: every length m-1, m, m+1 for m a multiple of 64 (labelled by the largest power of two <= 2^13 dividing m) or of 500 inside 2..1e4, and the ends 2, 3, 9998, 9999, 1e4 of the range, each with one data set (6 classes) through every statistic and API and one pair (7 classes) through the four covariance algorithms".into();
     rep.assume("all data finite; empty input and sample statistics of a single value are outside the quantifier");
     rep.assume("'rounding-error bound of a numerically stable algorithm' is read as B = 16[n u sx sy + n u (sx|my| + sy|mx|) + (n u)^2 |mx my|] for (co)variances (Welford's own n·u·kappa bound is the middle term; DESIGN's tighter c·n·eps·(s^2 + eps·mu^2) is recorded under info.worst_ratio_vs_DESIGN_formula.* for comparison), 8 n u max|x| for means (1 ulp for `mean` of small integers), B/sd resp. sqrt(B) for standard deviations");
     rep.assume("min/max are compared by value (either zero accepted for +-0); argmin/argmax = first index whose value equals the extreme");
@@ -1060,6 +1136,32 @@ pub fn run(cfg: &Cfg, rep: &mut Report) {
     });
     let n_sh = cfg.pick(900, 9000, 12);
     par_cases(cfg, rep, 9, n_sh, |i, rng, rep| hist_structured(rng, rep, i % STRUCTURED_EDGES.len()));
+    // lengths at the block / batch boundaries of long inputs (not under Miri: the lengths start at 63)
+    if !cfg.miri() {
+        let edges = block_edge_lengths();
+        // sanitizer layers: the lengths next to the multiples of 1024 and the range ends only
+        let edges: Vec<(usize, String, &'static str)> = if cfg.lite { edges.into_iter().filter(|(n, l, _)| l == "range-end" || (n + 1) % 1024 <= 2).collect() } else { edges };
+        let reps = cfg.pick(1, 6, 1);
+        par_cases(cfg, rep, 10, edges.len() * reps, |i, rng, rep| {
+            let (n, label, off) = &edges[i % edges.len()];
+            block_edge(rng, rep, *n, label, off);
+        });
+        for l in block_edge_labels() {
+            if cfg.lite && !["range-end", "k*2^10", "k*2^11", "k*2^12", "k*2^13"].contains(&l.as_str()) {
+                continue;
+            }
+            rep.require(&format!("blockedge:{}", l), 1);
+            if l != "range-end" {
+                for off in ["m-1", "m", "m+1"] {
+                    rep.require(&format!("blockedge:{}:len={}", l, off), 1);
+                }
+            }
+            rep.require(&format!("pair:blockedge:{}", l), 1);
+            for api in ["free", "vector", "matrix"] {
+                rep.require(&format!("{}:blockedge:{}", api, l), 1);
+            }
+        }
+    }
     for api in ["free", "vector", "matrix"] {
         rep.require(&format!("{}:near-ties", api), 1);
     }
